@@ -49,6 +49,11 @@ pub enum BaseStream {
     Mock(Cursor<Vec<u8>>),
     #[cfg(feature = "verif-hooks")]
     Scripted(Box<dyn crate::verif_hooks::Transport>),
+    /// an established CONNECT tunnel whose TLS layer the harness asked to leave out
+    #[cfg(feature = "verif-hooks")]
+    ScriptedTunnel {
+        stream: Box<BufReaderWrite<BaseStream>>,
+    },
 }
 
 impl BaseStream {
@@ -126,6 +131,13 @@ impl BaseStream {
             return Err(err.into());
         }
 
+        #[cfg(feature = "verif-hooks")]
+        if crate::verif_hooks::plain_tunnel(remote_host, base_settings) {
+            return Ok(BaseStream::ScriptedTunnel {
+                stream: Box::new(stream),
+            });
+        }
+
         let mut handshaker = TlsHandshaker::new();
         apply_base_settings(&mut handshaker, base_settings);
         let stream = handshaker.handshake(remote_host, stream)?;
@@ -201,6 +213,8 @@ impl Read for BaseStream {
             BaseStream::Mock(s) => s.read(buf),
             #[cfg(feature = "verif-hooks")]
             BaseStream::Scripted(s) => s.read(buf),
+            #[cfg(feature = "verif-hooks")]
+            BaseStream::ScriptedTunnel { stream } => stream.read(buf),
         }
     }
 }
@@ -214,6 +228,8 @@ impl Write for BaseStream {
             BaseStream::Tunnel { stream } => stream.write(buf),
             #[cfg(feature = "verif-hooks")]
             BaseStream::Scripted(s) => s.write(buf),
+            #[cfg(feature = "verif-hooks")]
+            BaseStream::ScriptedTunnel { stream } => stream.write(buf),
             #[cfg(test)]
             _ => Ok(0),
         }
@@ -227,6 +243,8 @@ impl Write for BaseStream {
             BaseStream::Tunnel { stream } => stream.flush(),
             #[cfg(feature = "verif-hooks")]
             BaseStream::Scripted(s) => s.flush(),
+            #[cfg(feature = "verif-hooks")]
+            BaseStream::ScriptedTunnel { stream } => stream.flush(),
             #[cfg(test)]
             _ => Ok(()),
         }
